@@ -1,4 +1,6 @@
 import ColoVerif.Model.CoresChecked
+import ColoVerif.Model.TetrisChecked
+import ColoVerif.Model.IncrNetChecked
 import Driver.Common
 /-
 Driver for C07: replays the harness' operation streams through the CHECKED models.
@@ -14,11 +16,19 @@ Driver for C07: replays the harness' operation streams through the CHECKED model
   apush <w> <t>     -> (nothing)         AbacusLegalizer::placeCell on a one-row legalizer
   aeval <w> <t>     -> aeval <ok> <dist> AbacusLegalizer::evaluatePlacement
   subdiv <a> <b> <n>-> subdiv <size> <sum> <front> <middle> <back>
+  tnew              -> (nothing)         start a TetrisLegalizer instance
+  trow <minX> <maxX> <minY> <maxY> <orient>          -> (nothing)
+  tcell <w> <h> <polarity> <tx> <ty> <orient>        -> (nothing)
+  trun              -> tetris <placed x y orient>*   TetrisLegalizer(rows, cells).run()  (Tetris.initC, tetrisRunC)
+  inew <nbCells>    -> (nothing)         IncrNetModelBuilder(nbCells)
+  inet <k> (<cell> <offset>)*            -> (nothing)   addNet
+  ibuild <pos>*     -> ibuild <value>    build(pos)          (Builder.buildC)
+  iupd <cell> <pos> -> iupd <value>      updateCellPos       (Model.updateCellPosC)
 
 Outside an `xcase` a fault is printed in place as `fault <site>` (the in-domain streams
 must never show one).
 -/
-open ColoVerif.RowLeg ColoVerif.Checked Driver
+open ColoVerif ColoVerif.RowLeg ColoVerif.Checked ColoVerif.Legalize Driver
 
 structure DS where
   asr : Bool := true
@@ -26,12 +36,20 @@ structure DS where
   inX : Bool := false
   faulted : Bool := false
   held : List String := []
+  trows : List Row := []
+  tcells : List LCell := []
+  ib : IncrNet.Builder := IncrNet.Builder.new 0
+  im : IncrNet.Model := default
 
 def emit (d : DS) (st : State) (line : String) : DS × List String :=
   if d.inX then ({ d with st := st, held := line :: d.held }, []) else ({ d with st := st }, [line])
 
 def fault (d : DS) (f : Fault) : DS × List String :=
   if d.inX then ({ d with faulted := true }, []) else (d, ["fault " ++ f.describe])
+
+def pinPairs : List String → List (Nat × Int)
+  | c :: o :: rest => ((int! c).toNat, int! o) :: pinPairs rest
+  | _ => []
 
 def step (d : DS) : List String → DS × List String
   | ["variant", v] => ({ d with asr := v != "ndebug" }, [])
@@ -71,6 +89,31 @@ def step (d : DS) : List String → DS × List String
     | .ok r =>
       emit d d.st ("subdiv " ++ toString r.length ++ " " ++ toString r.sum ++ " " ++ toString (r.headD 0) ++ " "
         ++ toString (r.getD (r.length / 2) 0) ++ " " ++ toString (r.getLastD 0))
+    | .error f => fault d f
+  | ["tnew"] => ({ d with trows := [], tcells := [] }, [])
+  | ["trow", a, b, c, e, o] =>
+    ({ d with trows := d.trows ++ [⟨⟨int! a, int! b, int! c, int! e⟩, Orient.ofCode (int! o).toNat⟩] }, [])
+  | ["tcell", w, h, p, tx, ty, o] =>
+    ({ d with tcells := d.tcells ++ [⟨int! w, int! h, Polarity.ofCode (int! p).toNat, int! tx, int! ty,
+                                     Orient.ofCode (int! o).toNat⟩] }, [])
+  | ["trun"] =>
+    if d.faulted then (d, []) else
+    match andThen (Tetris.initC d.trows) (fun t => tetrisRunC t d.tcells) with
+    | .ok ps =>
+      emit d d.st ("tetris" ++ String.join (ps.map fun p =>
+        " " ++ (if p.placed then "1" else "0") ++ " " ++ toString p.x ++ " " ++ toString p.y ++ " " ++ toString p.orient.code))
+    | .error f => fault d f
+  | ["inew", n] => ({ d with ib := IncrNet.Builder.new (int! n).toNat }, [])
+  | "inet" :: _ :: rest => ({ d with ib := d.ib.addNet (pinPairs rest) }, [])
+  | "ibuild" :: ps =>
+    if d.faulted then (d, []) else
+    match d.ib.buildC (ps.map fun p => int! p) with
+    | .ok m => emit { d with im := m } d.st ("ibuild " ++ toString m.value)
+    | .error f => fault d f
+  | ["iupd", c, p] =>
+    if d.faulted then (d, []) else
+    match d.im.updateCellPosC (int! c).toNat (int! p) with
+    | .ok m => emit { d with im := m } d.st ("iupd " ++ toString m.value)
     | .error f => fault d f
   | [] => (d, [])
   | ws => (d, ["bad-op " ++ " ".intercalate ws])
